@@ -15,6 +15,8 @@ R14.f  put / get: one fresh tag per transfer is sent in the handshake, used by t
        (count advanced) or queued in the matching FIFO - exactly one of the two on every path.
 R14.g  dynamic queue: a queued request is taken from the receive FIFO only below the receive limit,
        else from the send FIFO; it is installed exactly once and its queue cell is freed afterwards.
+R14.h  delayed send: the fields of the queued callback that the consumer reads when it finally posts the
+       MPI_Isend are set by every producer of such an item (cells are recycled, not cleared).
 """
 from sa.facts import AnalysisBroken, cond_atom
 from rules import gencommon as gc
@@ -236,3 +238,48 @@ def run(ctx):
     cnt = [s_ for s_ in f.stores('mpi_funnelled_num_recv_req_in_arr') if s_.op == '++']
     rg.expect(len(cnt) == 1 and bool(rcv) and f.guarded_by(cnt[0].point, lambda a, t: a.s == 'item' and t is True), 'queue:recv-counted', cnt[0].loc if cnt else f.where(),
               'an installed queued receive must be counted against the receive limit', note='installed receive counted')
+    # ---------------------------------------------------------------- R14.h
+    # A delayed send is described by the fields of item->cb that its producer filled in; the consumer
+    # (mpi_funnelled_append_dynamic_request, post_isend branch) may read only fields that EVERY producer of
+    # a post_isend item sets - the cells come from a memory pool and are not cleared.
+    rh = ctx.rule('R14.h', 'delayed send: every field the consumer reads from the queued callback is set by every producer of such an item', floor=4)
+    cons = u.func('mpi_funnelled_append_dynamic_request')
+    ctx.functions_analysed.add(cons.name)
+    reads = set()
+    for e in cons.events():
+        if e.kind == 'load' and e.e.k == 'mem' and e.e.s.startswith('item->cb.onesided.'):
+            if any(a.s == 'item->post_isend' and t is True for a, t, _ in cons.guards(e.point)):
+                reads.add(e.e.s[len('item->cb.'):])
+    if not reads:
+        raise AnalysisBroken('append_dynamic_request: no field of item->cb.onesided read in the post_isend branch')
+    producers = []
+    for name, g in u.funcs().items():
+        if not g.file.endswith('parsec_mpi_funnelled.c'):
+            continue
+        mark = [s_ for s_ in g.stores() if s_.lhs.s.endswith('->post_isend') and s_.rhs is not None and s_.rhs.cv == 1]
+        if mark:
+            producers.append((name, g, mark[0]))
+    if len(producers) < 2:
+        raise AnalysisBroken('expected at least two producers of delayed sends (put, get handshake), found %d' % len(producers))
+    for name, g, mark in producers:
+        ctx.functions_analysed.add(name)
+        # the callback of the queued item is reached through the alias cb = &item->cb set in the same branch
+        alias = [s_ for s_ in g.stores() if s_.rhs is not None and s_.rhs.s == '&item->cb' and s_.block == mark.block]
+        base = alias[0].lhs.s if alias else 'item->cb'
+        psh = [e for e in g.events() if e.kind == 'call' and e.fn == 'parsec_list_nolock_push_back' and 'sendreq' in e.args[0].s]
+        written = set()
+        for s_ in g.stores():
+            l = s_.lhs.s
+            for pre in ('%s->' % base, 'item->cb.'):
+                if l.startswith(pre) and psh and all(g.reaches(s_.point, p.point, acyclic=True) for p in psh):
+                    # must be written on every path to the push: the store dominates the push or post-dominates the marking
+                    if any(g.dominates(s_.point, p.point) for p in psh):
+                        written.add(l[len(pre):])
+        missing = sorted(reads - written)
+        rh.expect(not missing and bool(psh), 'delayed-send:%s' % name, mark.loc,
+                  '%s queues a delayed send without setting %s, which mpi_funnelled_append_dynamic_request reads when it finally posts the MPI_Isend (the cell is recycled, the value is whatever an earlier transfer left)' % (name, missing),
+                  note='%s sets every field the delayed post reads (%s)' % (name, ', '.join(sorted(reads))))
+    rh.ok(cons.where(), 'delayed post reads: %s' % ', '.join(sorted(reads)))
+    isend = [e for e in cons.events() if e.kind == 'call' and e.fn == 'MPI_Isend']
+    rh.expect(len(isend) == 1 and isend[0].args[-1].s == '&array_of_requests[slot]' and isend[0].args[4].s == 'item->cb.onesided.tag' and isend[0].args[3].s == 'item->cb.onesided.remote', 'delayed-send:post', isend[0].loc if isend else cons.where(),
+              'the delayed MPI_Isend must go to the recorded peer with the recorded tag and its request must land in the slot of its callback', note='delayed Isend(peer, tag) -> array_of_requests[slot]')
